@@ -392,6 +392,57 @@ def pairing(ctx):
         raise AnalysisError("P10 matched %d exclusions (expected >= 4)" % n10)
 
 
+# ---------------------------------------------------------------------------- C01.6 frameset-ok
+FRAMESET_NOT_OK_START_TAGS = {
+    "pre", "listing", "li", "dd", "dt", "button", "applet", "marquee", "object", "table", "area", "br", "embed", "img",
+    "keygen", "wbr", "input", "hr", "textarea", "xmp", "iframe", "select", "image", "body",
+}
+# `input` clears the flag unless type=hidden; `image` is re-dispatched as img; `body` (second body tag) clears it when it
+# is not ignored -- their handlers clear it on some path, the others on every path that inserts the element.
+
+
+def frameset_ok(ctx):
+    """The standard sets the frameset-ok flag to "not ok" for an explicit list of start tags in the "in body" insertion
+    mode.  Extract, from the dispatcher table, the names whose handler (transitively, same token) stores
+    parser.framesetOK = False, and compare with the transcription."""
+    r = ctx.r
+    pm = model(ctx)
+    inbody = pm.phases["inBody"]
+    tab = pm.table_for(inbody, "startTagHandler")
+
+    def clears(f, name, depth=0, seen=None):
+        seen = seen or set()
+        if f.fq in seen or depth > 3:
+            return False
+        seen.add(f.fq)
+        for n in walk_no_nested(f.node):
+            if isinstance(n, ast.Assign) and (attr_chain(n.targets[0]) or [""])[-1] == "framesetOK" and \
+                    isinstance(n.value, ast.Constant) and n.value.value is False:
+                return True
+        lt = pm.local_types(f)
+        for c in walk_no_nested(f.node):
+            if isinstance(c, ast.Call):
+                for g, gn in pm.resolve_call(f, c, name, lt):
+                    if g is not None and g.cls is not None and g.cls.is_subclass_of(pm.Phase) and g.module is f.module \
+                            and (gn == name or (name == "image" and gn == "img")):
+                        if clears(g, gn, depth + 1, seen):
+                            return True
+        return False
+    got = {k for k, f in tab.map.items() if clears(f, k)}
+    for k in sorted(got | FRAMESET_NOT_OK_START_TAGS):
+        r.check("C01.6", (k in got) == (k in FRAMESET_NOT_OK_START_TAGS), "frameset-ok:%s" % k, tab.where,
+                "start tag <%s> in body %s the frameset-ok flag; the standard says it %s" % (
+                    k, "clears" if k in got else "does not clear", "does" if k in FRAMESET_NOT_OK_START_TAGS else "does not"),
+                {"name": k}, detail={"name": k, "clears": k in got})
+    # characters: non-white-space text clears the flag, white space does not
+    f = ctx.repo.func(PARSER_REL, "InBodyPhase.processCharacters")
+    src = " ".join(norm(f.node).split())
+    r.check("C01.6", "any((char not in spaceCharacters for char in token['data']))" in src and "self.parser.framesetOK = False" in src,
+            "frameset-ok:characters", f.where, "non-white-space text in body no longer clears the frameset-ok flag")
+    g = ctx.repo.func(PARSER_REL, "InBodyPhase.processSpaceCharactersNonPre")
+    r.check("C01.6", "framesetOK" not in norm(g.node), "frameset-ok:space", g.where, "white space in body touches the frameset-ok flag")
+
+
 # ---------------------------------------------------------------------------- C01.4 / C02.7
 STANDARD_CONTENT_MODEL = {
     "title": {("rcdata", "always")}, "textarea": {("rcdata", "always")},
@@ -595,12 +646,14 @@ def run(ctx):
                     "P9 (scope variants), P10 (implied-end exclusions)", floor=45)
     r.rule("C01.4", "fragment context selects the tokenizer state its start-tag handler selects, under the same condition", floor=10)
     r.rule("C02.7", "element -> tokenizer state map of the start-tag handlers equals the standard's", floor=10)
+    r.rule("C01.6", "the start tags that clear the frameset-ok flag in body are the standard's list; text clears it, white space does not", floor=20)
     r.rule("C01.5", "evaluated element tables equal the transcribed WHATWG sets (entries marked either-way excepted)", floor=300)
     ambient(ctx)
     dispatch(ctx)
     pairing(ctx)
     content_model(ctx)
     fragment_state(ctx)
+    frameset_ok(ctx)
     standard_tables(ctx)
 
 
@@ -644,6 +697,10 @@ def mutants():
         T("fragment-title-rawtext", "html5parser.py",
           "            if self.innerHTML in cdataElements:\n                self.tokenizer.state = self.tokenizer.rcdataState",
           "            if self.innerHTML in cdataElements:\n                self.tokenizer.state = self.tokenizer.rawtextState", "C01.4"),
+        T("frameset-ok-hr", "html5parser.py", "        token[\"selfClosingAcknowledged\"] = True\n        self.parser.framesetOK = False\n\n    def startTagImage",
+          "        token[\"selfClosingAcknowledged\"] = True\n\n    def startTagImage", "C01.6"),
+        T("frameset-ok-div", "html5parser.py", "    def startTagCloseP(self, token):\n        if self.tree.elementInScope(\"p\", variant=\"button\"):\n            self.endTagP(impliedTagToken(\"p\"))\n        self.tree.insertElement(token)",
+          "    def startTagCloseP(self, token):\n        if self.tree.elementInScope(\"p\", variant=\"button\"):\n            self.endTagP(impliedTagToken(\"p\"))\n        self.tree.insertElement(token)\n        self.parser.framesetOK = False", "C01.6"),
         T("scope-drop-td", "constants.py", '    (namespaces["html"], "td"),\n    (namespaces["html"], "th"),\n    (namespaces["mathml"], "mi"),',
           '    (namespaces["html"], "th"),\n    (namespaces["mathml"], "mi"),', "C01.5"),
         T("svg-attr-case", "constants.py", '"viewbox": "viewBox"', '"viewbox": "viewbox"', "C01.5"),
